@@ -49,6 +49,10 @@ def states(tier):
     for u in trip:
         for g in trip:
             S.append(dict(base, ids=u + g))
+    # (b1b) ids beyond 2^31 (no entries): uid/gid as unsigned numbers, also inside placeholders
+    for u, g in (((4000000000, 4000000000, 4000000000), (4000000001, 4000000001, 4000000001)), ((2147483648, 4294967294, 0), (2147483647, 4294967294, 0)), ((0, 2147483648, 0), (0, 4000000000, 0))):
+        S.append(dict(base, ids=u + g))
+        S.append(dict(base, ids=u + g, stdin='pty', ptyowner=4000000000))
     # (b2) cwd x stdin x setsid
     for c in ('root', 'd300', 'd4000', 'dhuge', 'renamed', 'deleted'):
         for si in ('pty', 'pipe', 'null', 'closed'):
@@ -71,6 +75,9 @@ def states(tier):
     for np in (0, 1):
         for tz in ('UTC', 'VRF-3:30', 'ABC5DEF'):
             S.append(dict(base, newpgrp=np, tz=tz, setsid=0))
+    # (b6b) TZ changed by the caller between two conversions
+    for tz, tz2 in (('UTC', 'VRF-3:30'), ('VRF-3:30', 'ABC5'), ('ABC5DEF', 'XYZ-11'), ('UTC', 'UTC')):
+        S.append(dict(base, tz=tz, tz2=tz2))
     # (b7) $PWD naming the working directory exactly / by an alias / wrongly; evaluation in a forked child after a first evaluation in the parent
     for pw in ('exact', 'dotalias', 'symlink', 'other'):
         for c in ('d300', 'root'):
@@ -102,7 +109,7 @@ def base_state():
 
 def spec_of(st, ds, work):
     parts = ['ids=%s' % ','.join(map(str, st['ids'])), 'setsid=%d' % st['setsid'], 'cwd=' + st['cwd'], 'stdin=' + st['stdin'], 'env=' + st['env'], 'sudo=%d' % st['sudo'], 'logname=%d' % st['logname'],
-             'host=' + st['host'], 'ptyowner=%d' % st['ptyowner'], 'orphan=%d' % st.get('orphan', 0), 'tz=' + st.get('tz', 'UTC'), 'newpgrp=%d' % st.get('newpgrp', 0), 'pwd=' + st.get('pwd', 'none'), 'exec2=%d' % st.get('exec2', 0), 'forked=%d' % st.get('forked', 0), 'work=' + work, 'ds=' + ','.join(hx(d) for d in ds)] + (['cgfile=' + hx(st['cgfile'])] if st.get('cgfile') else []) + (['etc=' + st['etc']] if st.get('etc') else [])
+             'host=' + st['host'], 'ptyowner=%d' % st['ptyowner'], 'orphan=%d' % st.get('orphan', 0), 'tz=' + st.get('tz', 'UTC'), 'newpgrp=%d' % st.get('newpgrp', 0), 'pwd=' + st.get('pwd', 'none'), 'exec2=%d' % st.get('exec2', 0), 'forked=%d' % st.get('forked', 0), 'work=' + work, 'ds=' + ','.join(hx(d) for d in ds)] + (['cgfile=' + hx(st['cgfile'])] if st.get('cgfile') else []) + (['etc=' + st['etc']] if st.get('etc') else []) + (['tz2=' + st['tz2']] if st.get('tz2') else [])
     if st['chain']:
         parts.append('chain=' + '/'.join(hx(n) for n in st['chain'].split('/')))
     return ';'.join(parts)
@@ -145,6 +152,11 @@ def check_state(st, out, pw, gr, version):
             expect(n, db[idv])
         elif val(n) in db.values():
             bad.append((n, 'id %d has no entry but an existing name %r was reported' % (idv, val(n))))
+        else:
+            # a placeholder is fine; one that spells out a number (the documented "user-UID" form) must spell the right one
+            m = re.fullmatch(r'(?:[A-Za-z]+-)?(-?\d+)', val(n))
+            if m and int(m.group(1)) != idv:
+                bad.append((n, 'id %d has no entry; the placeholder %r names a different number' % (idv, val(n))))
     expect('hostname', unh(f, 'nodename').decode('latin-1'))
     # terminal family
     fd0 = unh(f, 'fd0').decode('latin-1')
@@ -212,6 +224,11 @@ def check_state(st, out, pw, gr, version):
         bad.append(('datetime', 'got=%r' % val('datetime')))
     expect('snoopy_version', version)
     expect('filename', '/bin/prog'); expect('cmdline', 'prog arg')
+    if st.get('tz2'):
+        got = bytes.fromhex(out['datetime_z_after_tz_change']['v']).decode('latin-1')
+        want = {'UTC': '+0000', 'VRF-3:30': '+0330', 'ABC5': '-0500', 'XYZ-11': '+1100'}[st['tz2']]
+        if got != want:
+            bad.append(('datetime:%z', 'TZ was changed to %s after earlier conversions; offset reported %r, in force %r' % (st['tz2'], got, want)))
     # evaluated again, in reverse order, after all the others: same answer (clock readings aside)
     for k, v2 in out.get('again', {}).items():
         name = bytes.fromhex(k).decode('latin-1')
